@@ -43,6 +43,9 @@ type bsCons struct {
 	// the last Get on this consumer failed: C05 says it consumed nothing, so what follows must behave as if
 	// it had never been issued (divergences right after it are attributed to C05 as well)
 	afterFailedGet bool
+	// the last state-changing call on this consumer was a successful Commit: it must have made exactly the reads
+	// made so far permanent (divergences of the very next read are attributed to C02 as well)
+	afterCommit bool
 }
 
 func (c *bsCons) pos() int   { return c.committed + c.delta }
@@ -316,6 +319,9 @@ func (m *bsMachine) finishGet(c *bsCons, wantVal int, wantErr bool) {
 	r := op.Res.(bsGetRes)
 	if wantErr {
 		if r.err == nil {
+			if c.pos() < m.base && c.afterCommit {
+				m.fail("C02+C01+C03/value-after-commit", "Get(c%d) right after a Commit returned %v although the consumer's next value (index %d) was evicted (base %d): Commit must add exactly the reads made, the Get must fail", c.id, r.v, c.pos(), m.base)
+			}
 			if c.pos() < m.base {
 				m.fail("C01+C03/lagging-got-value", "Get(c%d) returned %v although its next value (index %d) was evicted (base %d): must fail loudly", c.id, r.v, c.pos(), m.base)
 			}
@@ -330,6 +336,9 @@ func (m *bsMachine) finishGet(c *bsCons, wantVal int, wantErr bool) {
 		m.fail("C01+C03/get-error", "Get(c%d) failed with %v although value %d at index %d is retained (base %d, |G| %d)", c.id, r.err, wantVal, c.pos(), m.base, len(m.G))
 	}
 	if r.v != any(wantVal) {
+		if c.afterCommit {
+			m.fail("C02+C01+C03/value-after-commit", "Get(c%d) right after a Commit returned %v, expected %d (index %d): Commit must make exactly the reads made so far permanent", c.id, r.v, wantVal, c.pos())
+		}
 		if c.afterFailedGet {
 			m.fail("C05+C01/value-after-failed-get", "Get(c%d) returned %v, expected %d: the previous Get on this consumer failed and must not have consumed anything", c.id, r.v, wantVal)
 		}
@@ -347,6 +356,7 @@ func (m *bsMachine) finishGet(c *bsCons, wantVal int, wantErr bool) {
 	}
 	c.delta++
 	c.afterFailedGet = false
+	c.afterCommit = false
 	m.tr("get(c%d)=%d", c.id, wantVal)
 }
 
@@ -745,6 +755,7 @@ func (m *bsMachine) ruleCommit(t *rapid.T) {
 		}
 		c.committed += c.delta
 		c.delta = 0
+		c.afterCommit = true
 		m.changed()
 		m.tr("commit(c%d)->%d", c.id, c.committed)
 	}
